@@ -243,6 +243,10 @@ fn step(cx: &mut Ctx, data: &mut Vec<u8>, op: &Op) {
                 show(&fr.result)
             ));
             cx.probe("io.file_exec");
+            if fr.panic.is_some() && (spec.open.is_err() || spec.meta.is_err() || matches!(spec.meta, Ok(x) if x > MAX)) {
+                cx.fail("C18.no_panic", "panic:hash_file", format!("hash_file panicked: {}", fr.panic.clone().unwrap_or_default()));
+                return;
+            }
             if let Err(e) = &spec.open {
                 cx.probe("fault.fired.open_error");
                 match &fr.result {
@@ -278,6 +282,26 @@ fn step(cx: &mut Ctx, data: &mut Vec<u8>, op: &Op) {
                         format!("metadata size {} exceeds the limit but hash_file returned {}", m, show(&fr.result)),
                     );
                 }
+                return;
+            }
+            // A file that is consistent from the implementation's point of view
+            // (no read error, and exactly as many bytes as the metadata said before
+            // the end of the stream) is the fault-free case: whether the size
+            // declaration changes its hash is C12's statement (C12.easy_declares)
+            // and whether short reads matter is judged on hash_stream.  It is
+            // executed and logged, not judged here -- not even when it panics.
+            let consistent = !matches!(fr.trace.terminal, Some(Err(_)))
+                && fr.trace.delivered as u64 == m
+                && (fr.trace.terminal.is_some() || fr.trace.delivered == data.len());
+            if consistent && !fr.runaway {
+                cx.probe("io.consistent_file_not_judged");
+                if fr.panic.is_some() {
+                    cx.probe("io.consistent_file_panicked");
+                }
+                return;
+            }
+            if let Some(msg) = &fr.panic {
+                cx.fail("C18.no_panic", "panic:hash_file", format!("hash_file panicked: {}", msg));
                 return;
             }
             judge_reads(cx, "hash_file", data, &spec.script, &fr.trace, fr.runaway, &fr.result, Some(m));
